@@ -43,6 +43,126 @@ def axis_param(t):
     return None
 
 
+def _tail_axes(t):
+    """t brings two axes named by *_dim parameters to the end of its operand: x.transpose(<others> + [a, b]) | np.transpose(x, ...) | np.moveaxis(x, [a, b], [-2, -1])
+    -> (operand, (name of a, name of b)); a reordering with other targets -> (operand, None); not a reordering -> None"""
+    from ..walk import canon
+    n, pos, kw = call_parts(t)
+    if n is None:
+        return None
+    c = canon(n)
+    if c == 'numpy.transpose':
+        ax = call_arg(t, 1, 'axes')
+        if ax is None:
+            return pos[0], None
+        ax = strip_views(ax)
+        last = None
+        if ax.op == 'binop' and ax.args[0] == 'Add':
+            last = strip_views(ax.args[2])
+        elif ax.op in ('list', 'tuple'):
+            last = ax
+        if last is not None and last.op in ('list', 'tuple') and len(last.args[0]) >= 2:
+            a, b = last.args[0][-2], last.args[0][-1]
+            return pos[0], (axis_param(a), axis_param(b))
+        return pos[0], None
+    if c == 'numpy.moveaxis':
+        s_, d_ = call_arg(t, 1, 'source'), call_arg(t, 2, 'destination')
+        if s_ is not None and d_ is not None and strip_views(s_).op in ('list', 'tuple') and const_val(strip_views(d_)) in ((-2, -1), [-2, -1]):
+            items = strip_views(s_).args[0]
+            if len(items) == 2:
+                return pos[0], (axis_param(items[0]), axis_param(items[1]))
+        return pos[0], None
+    if c in ('numpy.swapaxes', 'numpy.rollaxis'):
+        return pos[0], None
+    return None
+
+
+PASS_THROUGH = ('numpy.copy', 'numpy.conj', 'numpy.conjugate', 'numpy.asarray', 'numpy.array', 'numpy.ascontiguousarray', 'numpy.expand_dims', 'method:astype', 'method:copy',
+                'method:conj', 'method:conjugate', 'numpy.abs', 'numpy.absolute')
+
+
+def layout_of(t, pname, depth=0):
+    """how the caller's array `pname` reaches the contraction operand t: set of layouts, each the pair of *_dim names brought to the end, 'caller' when the array arrives in
+    the caller's layout (no axis reordering on the way), '?' when the way is not recognised"""
+    if depth > 40:
+        return {'?'}
+    t0 = t
+    while isinstance(t0, T) and t0.op == 'refine':
+        t0 = t0.args[0]
+    if not isinstance(t0, T):
+        return {'?'}
+    if t0.op == 'param':
+        return {'caller'} if t0.args[0] == pname else {'?'}
+    if t0.op == 'gamma':
+        out = set()
+        for x in (t0.args[1], t0.args[2]):
+            if derives(x, pname):
+                out |= layout_of(x, pname, depth + 1)
+        return out or {'?'}
+    r = _tail_axes(t0)
+    if r is not None:
+        x, names = r
+        inner = layout_of(x, pname, depth + 1)
+        if inner != {'caller'}:
+            return {'?'}                 # a second reordering: not composed here
+        return {names if names is not None and None not in names else '?'}
+    n = call_parts(t0)[0]
+    if n in PASS_THROUGH or (n is not None and n.startswith('method:') and n.split(':')[1] in ('conj', 'copy', 'astype')):
+        return layout_of(call_parts(t0)[1][0], pname, depth + 1)
+    if t0.op in ('binop', 'iop'):
+        side = [x for x in (t0.args[1], t0.args[2]) if derives(x, pname)]
+        # mask /= sum(mask): the normaliser derives from the mask too; the array itself is the left operand of an in-place / elementwise operation
+        if t0.op == 'iop' or (len(side) == 2 and t0.args[0] in ('Div', 'Mult')):
+            return layout_of(t0.args[1], pname, depth + 1)
+        if len(side) == 1:
+            return layout_of(side[0], pname, depth + 1)
+        return {'?'}
+    if t0.op == 'sub':
+        from ..walk import newaxis_insertions
+        ins = newaxis_insertions(t0)
+        if ins is not None:
+            return layout_of(ins[0], pname, depth + 1)
+    if t0.op == 'store':
+        return layout_of(t0.args[0], pname, depth + 1)
+    return {'?'}
+
+
+def check_layout(run, A, fn, sites):
+    """sensor_dim / source_dim / time_dim are promises to the caller: the contraction letters only mean (sensor, frame) and (source, frame) after the observation and a mask
+    with a source axis have been brought to (..., sensor_dim, time_dim) and (..., source_dim, time_dim)."""
+    n = 0
+    for s in sites:
+        st = ein.structure(s)
+        info = ein.operand_info(s)
+        for i, (b, cj, raw) in enumerate(info):
+            letters = st['ins'][i]
+            if derives(raw, 'observation') and not (derives(raw, 'mask') and not any(x.op == 'param' and x.args[0] == 'observation' for x in walk_terms(raw))):
+                want, pname = ('sensor_dim', 'time_dim'), 'observation'
+                obs_side = raw
+                r0 = strip_views(raw)
+                if r0.op == 'binop' and r0.args[0] == 'Mult':
+                    side = [x for x in (r0.args[1], r0.args[2]) if any(y.op == 'param' and y.args[0] == 'observation' for y in walk_terms(x)) and
+                            not any(y.op == 'param' and y.args[0] == 'mask' for y in walk_terms(x))]
+                    if len(side) == 1:
+                        obs_side = side[0]
+                got = layout_of(obs_side, pname)
+            elif derives(raw, 'mask') and len(letters) >= 2 and letters[-2] in st['out']:
+                want, pname = ('source_dim', 'time_dim'), 'mask'
+                got = layout_of(raw, pname)
+            else:
+                continue
+            n += 1
+            if got == {want}:
+                run.ok('R-AXIS', f'PSD {st["sub"]!r}: {pname} operand is in layout (..., {want[0]}, {want[1]})', s.loc, '')
+            elif '?' in got:
+                run.unresolved('R-AXIS', f'PSD {st["sub"]!r}: {pname} operand is in layout (..., {want[0]}, {want[1]})', s.loc, f'the way from `{pname}` to operand {i} is not recognised')
+            else:
+                desc = ', '.join('the caller\'s layout (no reordering)' if x == 'caller' else f'(..., {x[0]}, {x[1]})' for x in sorted(got, key=str))
+                run.violation('R-AXIS', f'PSD {st["sub"]!r}: {pname} operand is in layout (..., {want[0]}, {want[1]})', s.loc,
+                              f'operand {i} ({letters!r}) arrives in {desc}: for any non-default {want[0]} / {want[1]} the letters pair the wrong axes', construct=f'R-AXIS::{Q}::layout::{pname}')
+    run.floor('PSD contraction operands with a decided axis layout', n, 7)
+
+
 def check(run):
     A = run.A
     run.explanation = (
@@ -89,6 +209,8 @@ def check(run):
             if rs.op == 'binop' and rs.args[0] == 'Mult':
                 okm = derives(rs, 'mask')
                 run.check(okm, 'R-EIN', 'PSD: mask multiplies the plain observation factor', s.loc, '', 'the weighted factor is not mask * observation', construct=f'R-EIN::{Q}::mask-factor')
+    check_layout(run, A, fn, [s_ for s_ in sites if s_.parsed])
+
     # mask normalisation
     def divisions(pred):
         """all divisions (in place or not) of the function whose numerator satisfies pred: (term, node)"""
